@@ -143,49 +143,123 @@ Qed.
 Print Assumptions c18_carry.
 
 (* ============ (ii) rate model ============ *)
+(* The parameters are those that AssetRatesParams.Validate accepts ([rates_valid]); the keeper
+   functions behind both governance handlers store nothing else ([c18_rate_params_stored_valid]).
+   Since the repair of C18-F1 validity includes UOptimal < 1, so no hypothesis on UOptimal
+   remains below.  [stable] selects the curve as the IsStableBorrow flag of
+   GetBorrowAPRByAssetID does. *)
 Theorem c18_util_range : forall m b u, 0 <= m -> 0 <= b -> utilisation m b = Some u -> 0 <= u <= P18.
 Proof. exact utilisation_range. Qed.
 Print Assumptions c18_util_range.
 
-Theorem c18_rate_base : forall uopt base s1 s2 r, 0 < uopt ->
-  kink_apr 0 uopt base s1 s2 = Some r -> r = base.
-Proof. intros uopt base s1 s2 r H E. apply kink_apr_spec in E. rewrite E. apply kink_base; assumption. Qed.
+Theorem c18_rate_params_stored_valid : forall p q,
+  (add_rates_params p = Ok q -> q = p /\ rates_valid q = true) /\
+  (forall n d e, add_rates_pool_pairs p n d e = Ok q -> q = p /\ rates_valid q = true) /\
+  (P18 <= rp_uopt p -> add_rates_params p = Err 1 /\ forall n d e, add_rates_pool_pairs p n d e = Err 1).
+Proof.
+  intros p q. split; [|split].
+  - intros E. apply add_rates_params_spec in E as [-> V]. auto.
+  - intros n d e E. apply add_rates_pool_pairs_spec in E as [-> V]. auto.
+  - intros H. apply rates_valid_uopt_lt_one in H. unfold add_rates_params, add_rates_pool_pairs, pool_pairs_valid.
+    rewrite H. auto.
+Qed.
+Print Assumptions c18_rate_params_stored_valid.
+
+(* with validated parameters of sane magnitude (each rate below 2^128 ulps) the borrow rate of
+   both kinds and the lend rate are DEFINED at every utilisation in [0,1]: no division by zero,
+   no overflow panic *)
+Theorem c18_rate_defined : forall p stable u, rates_valid p = true -> rates_bounded p = true ->
+  0 <= u <= P18 ->
+  (exists r, borrow_apr p stable u = Some r /\ 0 <= r) /\ exists l, lend_apr_p p u = Some l.
+Proof.
+  intros p stable u V B Hu. apply rates_valid_spec in V as (_ & Uo & Hb & H1 & H2 & Hsb & Hs1 & Hs2 & _ & _ & _ & _ & Hrf & _).
+  apply rates_bounded_spec in B as (B1 & B2 & B3 & B4 & B5 & B6 & B7).
+  pose proof (kink_defined u (rp_uopt p) (rp_base p) (rp_s1 p) (rp_s2 p) ltac:(lia) ltac:(lia) ltac:(lia) ltac:(lia) ltac:(lia) Hu) as [Ev Rv].
+  split.
+  - rewrite borrow_apr_curve. destruct stable.
+    + pose proof (kink_defined u (rp_uopt p) (rp_sbase p) (rp_ss1 p) (rp_ss2 p) ltac:(lia) ltac:(lia) ltac:(lia) ltac:(lia) ltac:(lia) Hu) as [Es Rs].
+      eexists. split; [exact Es|lia].
+    + eexists. split; [exact Ev|lia].
+  - unfold lend_apr_p, borrow_apr, obindr. rewrite Ev.
+    pose proof (lend_defined (kink_val u (rp_uopt p) (rp_base p) (rp_s1 p) (rp_s2 p)) u (rp_rf p) ltac:(lia) Hu ltac:(lia)) as [El _].
+    eexists. exact El.
+Qed.
+Print Assumptions c18_rate_defined.
+
+Theorem c18_rate_base : forall p stable r, rates_valid p = true ->
+  borrow_apr p stable 0 = Some r -> r = if stable then rp_sbase p else rp_base p.
+Proof.
+  intros p stable r V E. apply rates_valid_spec in V as (_ & Uo & _). rewrite borrow_apr_curve in E.
+  apply kink_apr_spec in E. rewrite E. apply kink_base; lia.
+Qed.
 Print Assumptions c18_rate_base.
 
 (* both branches and across the kink *)
-Theorem c18_rate_monotone : forall u1 u2 uopt base s1 s2 r1 r2,
-  0 < uopt -> uopt < P18 -> 0 <= s1 -> 0 <= s2 -> 0 <= u1 -> u1 <= u2 ->
-  kink_apr u1 uopt base s1 s2 = Some r1 -> kink_apr u2 uopt base s1 s2 = Some r2 -> r1 <= r2.
+Theorem c18_rate_monotone : forall p stable u1 u2 r1 r2, rates_valid p = true ->
+  0 <= u1 -> u1 <= u2 ->
+  borrow_apr p stable u1 = Some r1 -> borrow_apr p stable u2 = Some r2 -> r1 <= r2.
 Proof.
-  intros until r2. intros A B C D E F E1 E2. apply kink_apr_spec in E1. apply kink_apr_spec in E2.
-  subst. apply kink_monotone; assumption.
+  intros p stable u1 u2 r1 r2 V A B E1 E2.
+  apply rates_valid_spec in V as (_ & Uo & Hb & H1 & H2 & Hsb & Hs1 & Hs2 & _).
+  rewrite borrow_apr_curve in E1, E2. apply kink_apr_spec in E1. apply kink_apr_spec in E2. subst.
+  apply kink_monotone; try lia; destruct stable; lia.
 Qed.
 Print Assumptions c18_rate_monotone.
 
 (* continuity at the kink: the value at u_opt is base + slope1 and exceeds the value one ulp
    below by at most (2*slope1/u_opt + 1) ulps *)
-Theorem c18_rate_kink : forall uopt base s1 s2 r_at r_below,
-  1 < uopt -> uopt < P18 -> 0 <= s1 -> 0 <= s2 ->
-  kink_apr uopt uopt base s1 s2 = Some r_at -> kink_apr (uopt - 1) uopt base s1 s2 = Some r_below ->
-  r_at = base + s1 /\ 0 <= r_at - r_below /\ (r_at - r_below) * uopt <= 2 * s1 + uopt.
+Theorem c18_rate_kink : forall p stable r_at r_below, rates_valid p = true ->
+  borrow_apr p stable (rp_uopt p) = Some r_at -> borrow_apr p stable (rp_uopt p - 1) = Some r_below ->
+  let base := if stable then rp_sbase p else rp_base p in
+  let s1 := if stable then rp_ss1 p else rp_s1 p in
+  r_at = base + s1 /\ 0 <= r_at - r_below /\ (r_at - r_below) * rp_uopt p <= 2 * s1 + rp_uopt p.
 Proof.
-  intros until r_below. intros A B C D E1 E2. apply kink_apr_spec in E1. apply kink_apr_spec in E2. subst.
-  pose proof (kink_jump uopt base s1 s2 A B C D) as J. cbv zeta in J.
-  split; [apply kink_at|]. tauto.
+  intros p stable r_at r_below V E1 E2.
+  apply rates_valid_spec in V as (_ & Uo & Hb & H1 & H2 & Hsb & Hs1 & Hs2 & _).
+  rewrite borrow_apr_curve in E1, E2. apply kink_apr_spec in E1. apply kink_apr_spec in E2. subst. cbv zeta.
+  split; [apply kink_at|].
+  apply kink_jump_all; try lia; destruct stable; lia.
 Qed.
 Print Assumptions c18_rate_kink.
 
-Theorem c18_lend_le_borrow : forall b u rf r, 0 <= b -> 0 <= u <= P18 -> 0 <= rf <= P18 ->
-  lend_apr b u rf = Some r -> 0 <= r <= b.
-Proof. intros b u rf r A B C E. apply lend_apr_spec in E. subst. apply lend_le_borrow; assumption. Qed.
+(* the lend rate never exceeds the (variable) borrow rate; it is non-negative when the reserve
+   factor is at most 1, which Validate does not enforce (a reserve factor above 1 makes the lend
+   rate negative: still below the borrow rate) *)
+Theorem c18_lend_le_borrow : forall p u b l, rates_valid p = true -> 0 <= u <= P18 ->
+  borrow_apr p false u = Some b -> lend_apr_p p u = Some l ->
+  l <= b /\ (rp_rf p <= P18 -> 0 <= l).
+Proof.
+  intros p u b l V Hu Eb El. unfold lend_apr_p, obindr in El. rewrite Eb in El.
+  apply rates_valid_spec in V as (_ & Uo & Hb & H1 & H2 & _ & _ & _ & _ & _ & _ & _ & Hrf & _).
+  rewrite borrow_apr_curve in Eb. apply kink_apr_spec in Eb. apply lend_apr_spec in El. subst.
+  set (b := kink_val u (rp_uopt p) (rp_base p) (rp_s1 p) (rp_s2 p)).
+  assert (B0 : rp_base p <= b).
+  { unfold b. rewrite <- (kink_base (rp_uopt p) (rp_base p) (rp_s1 p) (rp_s2 p)) at 1 by lia.
+    apply kink_monotone; lia. }
+  split.
+  - destruct (Z.le_gt_cases (rp_rf p) P18).
+    + apply lend_le_borrow; lia.
+    + unfold lend_val. pose proof (DecFacts.dmul_nonneg b u ltac:(lia) ltac:(lia)).
+      pose proof (dmul_nonneg_nonpos (DecArith.dmul b u) (P18 - rp_rf p) ltac:(lia) ltac:(lia)). lia.
+  - intros. apply lend_le_borrow; lia.
+Qed.
 Print Assumptions c18_lend_le_borrow.
 
-(* known finding C18-F1: UOptimal = 1 passes AssetRatesParams.Validate; at full utilisation the
-   rate computation panics (Quo by 1 - UOptimal = 0) *)
-Theorem c18_rate_uopt_one_refuted : forall base s1 s2,
-  kf_C18_1 P18 = true /\ kink_apr P18 P18 base s1 s2 = None.
-Proof. intros. split; [reflexivity|apply kink_uopt_one_panics]. Qed.
-Print Assumptions c18_rate_uopt_one_refuted.
+(* regression case of the repaired finding C18-F1: UOptimal = 1 with otherwise mainnet-like values
+   is rejected by Validate and by both keeper functions; unvalidated, the curve of maths.go
+   would still divide by zero at full utilisation, and any UOptimal < 1 that passes is defined *)
+Definition c18_f1_witness : rate_params :=
+  mkRP 1 P18 2000000000000000 80000000000000000 1500000000000000000 0 0 0
+       700000000000000000 75000000000000000 75000000000000000 650000000000000000 200000000000000000 8.
+Example c18_rate_uopt_one_rejected :
+  rates_valid c18_f1_witness = false /\ add_rates_params c18_f1_witness = Err 1 /\
+  add_rates_pool_pairs c18_f1_witness 14 true false = Err 1 /\
+  borrow_apr c18_f1_witness false P18 = None /\
+  (let q := mkRP 1 (P18 - 1) 2000000000000000 80000000000000000 1500000000000000000 0 0 0
+       700000000000000000 75000000000000000 75000000000000000 650000000000000000 200000000000000000 8 in
+   add_rates_params q = Ok q /\ borrow_apr q false P18 = Some 1582000000000000000 /\
+   lend_apr_p q P18 = Some 1265600000000000000).
+Proof. vm_compute. repeat split. Qed.
 
 (* ============ (iii) compound accrual through float64: CalculationOfRewards ============ *)
 (* math.Pow is the variable [pow]; H1-H3 are explicit premises.  They are assumptions about Go's
@@ -238,10 +312,15 @@ Example c18_idx_nonvacuous :
 Proof. vm_compute. reflexivity. Qed.
 
 Example c18_rate_nonvacuous :
-  let k u := kink_apr u 800000000000000000 20000000000000000 70000000000000000 1000000000000000000 in
-  k 300000000000000000 = Some 46250000000000000 /\ k 800000000000000000 = Some 90000000000000000 /\
-  k 900000000000000000 = Some 590000000000000000 /\
-  lend_apr 590000000000000000 900000000000000000 100000000000000000 = Some 477900000000000000.
+  let p := mkRP 1 800000000000000000 20000000000000000 70000000000000000 1000000000000000000
+                10000000000000000 50000000000000000 2000000000000000000
+                P18 P18 P18 P18 100000000000000000 2 in
+  rates_valid p = true /\ rates_bounded p = true /\
+  borrow_apr p false 300000000000000000 = Some 46250000000000000 /\
+  borrow_apr p false 800000000000000000 = Some 90000000000000000 /\
+  borrow_apr p false 900000000000000000 = Some 590000000000000000 /\
+  borrow_apr p true 900000000000000000 = Some 1060000000000000000 /\
+  lend_apr_p p 900000000000000000 = Some 477900000000000000.
 Proof. vm_compute. repeat split. Qed.
 
 Example c18_carry_nonvacuous :
